@@ -59,14 +59,14 @@ vnacal_t *_vnacal_alloc(const char *function,
     vcp->vc_magic = VC_MAGIC;
     vcp->vc_error_fn = error_fn;
     vcp->vc_error_arg = error_arg;
+    vcp->vc_new_head.l_forw = &vcp->vc_new_head;
+    vcp->vc_new_head.l_back = &vcp->vc_new_head;
     if (_vnacal_setup_parameter_collection(function, vcp) == -1) {
 	vnacal_free(vcp);
 	return NULL;
     }
     vcp->vc_fprecision = VNACAL_DEFAULT_DATA_PRECISION;
     vcp->vc_dprecision = VNACAL_DEFAULT_FREQUENCY_PRECISION;
-    vcp->vc_new_head.l_forw = &vcp->vc_new_head;
-    vcp->vc_new_head.l_back = &vcp->vc_new_head;
 
     return vcp;
 }
